@@ -409,7 +409,7 @@ CHECKS = {
               "declared size that cannot be allocated; any other escaping exception is a violation), and on success every stored "
               "handle designates an existing entity, every property has one element per entity and the mesh can be "
               "traversed with bottom-up incidences rebuilt. Seed corpus: the repository's test files + structure-aware "
-              "seeds, format dictionaries. Inputs declaring > 10^6 entities (or > 6-digit integers in text) are "
+              "seeds, format dictionaries. Inputs declaring > 10^5 entities (or > 5-digit integers in text) are "
               "skipped and counted in the campaigns; that clause is decided separately by ENUMERATION (target t_huge, "
               "optimised build without sanitizer, every case in a forked child under RLIMIT_AS = 1 GiB and a 20 s "
               "limit): every byte offset of two small valid OVMB files x {u64, u32} x 14 huge values (2^20 ... 2^64-1), "
@@ -418,11 +418,11 @@ CHECKS = {
               "or success with a valid mesh. non-trivial = input passes the magic / header (OVMB) resp. reaches the Vertices "
               "section (ASCII); distinct = distinct input hash, reported as the largest per-process count (a lower "
               "bound of the union)"),
-        assumptions=["-timeout=10: a timeout artifact counts only if the replay of a < 64 KB input reproducibly fails to terminate",
+        assumptions=["-timeout=10 during the campaign; a timeout artifact counts only if two replays of the < 64 KB input with a 150 s limit still do not terminate",
                      "libFuzzer seeds pin a campaign only approximately; the saved artifact is the reproducible unit"],
         technique="coverage-guided fuzzing (libFuzzer) with structure-aware mutation and an in-target validity post-condition; enumeration of huge declared sizes under an address-space limit",
         level_text="Coverage-guided byte-level and structure-aware fuzzing of both readers under sanitizers with a semantic post-condition.",
-        level_note="Declared sizes beyond 10^6 are excluded from the sanitizer campaigns and covered by the t_huge enumeration instead (no sanitizer there).",
+        level_note="Declared sizes beyond 10^5 are excluded from the sanitizer campaigns (a read whose work is proportional to a declared count of 10^6 takes tens of seconds under ASan and cannot be told from a hang) and covered by the t_huge enumeration instead (no sanitizer there).",
     ),
 }
 
